@@ -200,6 +200,23 @@ class CancelStops(Monitor):
     def __init__(self, scn, cfg):
         super(CancelStops, self).__init__(scn, cfg)
         self.stats = {"post_cancel_steps": 0, "canceled_endings": 0, "renders": 0}
+        # rendering must succeed when every variable the output reads has a declared default (input / vars):
+        # whatever was published, those names always resolve
+        declared = set()
+        for item in (scn.wf.get("input") or []) + (scn.wf.get("vars") or []):
+            if isinstance(item, dict):
+                declared |= set(item.keys())
+            else:
+                declared.add(item)
+        self.output_always_renders = True
+        for item in scn.wf.get("output") or []:
+            (k, val), = item.items()
+            ast = rd.parse_expr(val)
+            if ast[0] == "lit":
+                continue
+            if ast[0] in ("ctx", "inc") and ast[1] in declared:
+                continue
+            self.output_always_renders = False
 
     def on_step(self, pre, move, sim, res, post, ctx):
         if not sim.h["cancel_req"] or post["state"] is None:
@@ -245,7 +262,7 @@ class CancelStops(Monitor):
             self.stats["renders"] += 1
             if status != st.CANCELED:
                 return v("render_changed_canceled")
-            if len(post["errors"]) > len(pre["errors"]):
+            if len(post["errors"]) > len(pre["errors"]) and self.output_always_renders:
                 done = any(r.get("status") in COMPLETED for r in post["state"]["sequence"])
                 return v("render_of_canceled_workflow_logged_error", some_task_completed=done,
                          canceled_by_request_at_rest=bool(sim.h.get("canceled_by_request_at_rest")),
